@@ -57,8 +57,17 @@ func activeFields(fields []Field, v int) []*Field {
 	return out
 }
 
+// Filler builds Go messages from schema-shaped JSON values.  NilEmpty: an empty array / bytes value of a field that is
+// not nullable at this version is given to the library as a nil slice (Go's usual empty slice).
+type Filler struct {
+	Msg      string
+	NilEmpty bool
+	Unmapped []string
+}
+
 // Fill sets the Go struct rv from the schema-shaped JSON value (absent key = null / not sent = Go zero value).
-func Fill(msg string, rv reflect.Value, fields []Field, v int, raw json.RawMessage, path string, unmapped *[]string) error {
+func (fl *Filler) Fill(rv reflect.Value, fields []Field, v int, raw json.RawMessage, path string) error {
+	msg, unmapped := fl.Msg, &fl.Unmapped
 	obj, err := object(raw)
 	if err != nil {
 		return fmt.Errorf("%s: %v", path, err)
@@ -74,16 +83,16 @@ func Fill(msg string, rv reflect.Value, fields []Field, v int, raw json.RawMessa
 		if !present {
 			continue
 		}
-		if err := setField(msg, rv.Field(idx), f, v, val, p, unmapped); err != nil {
+		if err := fl.setField(rv.FieldByIndex(idx), f, v, val, p, f.Nullable(v)); err != nil {
 			return err
 		}
 	}
 	return nil
 }
 
-func setField(msg string, fv reflect.Value, f *Field, v int, raw json.RawMessage, p string, unmapped *[]string) error {
+func (fl *Filler) setField(fv reflect.Value, f *Field, v int, raw json.RawMessage, p string, nullable bool) error {
 	if !f.Arr {
-		return setElem(msg, fv, f, v, raw, p, unmapped)
+		return fl.setElem(fv, f, v, raw, p, nullable)
 	}
 	var elems []json.RawMessage
 	if err := json.Unmarshal(raw, &elems); err != nil {
@@ -92,9 +101,12 @@ func setField(msg string, fv reflect.Value, f *Field, v int, raw json.RawMessage
 	if fv.Kind() != reflect.Slice {
 		return fmt.Errorf("%s: schema array but Go %s", p, fv.Type())
 	}
+	if len(elems) == 0 && fl.NilEmpty && !nullable {
+		return nil
+	}
 	s := reflect.MakeSlice(fv.Type(), len(elems), len(elems))
 	for i, e := range elems {
-		if err := setElem(msg, s.Index(i), f, v, e, p, unmapped); err != nil {
+		if err := fl.setElem(s.Index(i), f, v, e, p, false); err != nil {
 			return err
 		}
 	}
@@ -102,7 +114,7 @@ func setField(msg string, fv reflect.Value, f *Field, v int, raw json.RawMessage
 	return nil
 }
 
-func setElem(msg string, fv reflect.Value, f *Field, v int, raw json.RawMessage, p string, unmapped *[]string) error {
+func (fl *Filler) setElem(fv reflect.Value, f *Field, v int, raw json.RawMessage, p string, nullable bool) error {
 	switch f.T {
 	case "bool":
 		var b bool
@@ -155,6 +167,9 @@ func setElem(msg string, fv reflect.Value, f *Field, v int, raw json.RawMessage,
 		if fv.Kind() != reflect.Slice || fv.Type().Elem().Kind() != reflect.Uint8 {
 			return fmt.Errorf("%s: schema bytes but Go %s", p, fv.Type())
 		}
+		if len(b) == 0 && fl.NilEmpty && !nullable {
+			return nil
+		}
 		fv.SetBytes(b)
 	case "records":
 		if fv.Type() != recordSetType {
@@ -164,7 +179,7 @@ func setElem(msg string, fv reflect.Value, f *Field, v int, raw json.RawMessage,
 		fv.Set(reflect.ValueOf(protocol.RecordSet{Version: 1, Records: protocol.NewRecordReader()}))
 	default: // struct
 		if fv.Kind() == reflect.Struct && fv.Type() != recordSetType {
-			return Fill(msg, fv, f.Fields, v, raw, p, unmapped)
+			return fl.Fill(fv, f.Fields, v, raw, p)
 		}
 		// a schema struct with a single field at this version carried by a scalar in Go ([]string for [{Name}])
 		act := activeFields(f.Fields, v)
@@ -179,7 +194,7 @@ func setElem(msg string, fv reflect.Value, f *Field, v int, raw json.RawMessage,
 		if !present {
 			return nil
 		}
-		return setField(msg, fv, act[0], v, inner, sub(p, act[0].Name), unmapped)
+		return fl.setField(fv, act[0], v, inner, sub(p, act[0].Name), nullable && act[0].Nullable(v))
 	}
 	return nil
 }
@@ -237,7 +252,7 @@ func (d *Dumper) Dump(rv reflect.Value, fields []Field, v int, path string) map[
 	msg := d.Msg
 	out := map[string]interface{}{}
 	unm := []string{}
-	used := map[int]bool{}
+	used := map[string]bool{}
 	for i := range fields {
 		f := &fields[i]
 		if !f.Active(v) {
@@ -248,8 +263,8 @@ func (d *Dumper) Dump(rv reflect.Value, fields []Field, v int, path string) map[
 			unm = append(unm, f.Name)
 			continue
 		}
-		used[idx] = true
-		if x, ok := d.dumpField(rv.Field(idx), f, v, sub(path, f.Name)); ok {
+		used[fmt.Sprint(idx)] = true
+		if x, ok := d.dumpField(rv.FieldByIndex(idx), f, v, sub(path, f.Name)); ok {
 			out[f.Name] = x
 		}
 	}
@@ -259,10 +274,10 @@ func (d *Dumper) Dump(rv reflect.Value, fields []Field, v int, path string) map[
 			continue
 		}
 		idx, ok := goField(msg, rv.Type(), sub(path, f.Name), f.Name)
-		if !ok || used[idx] {
+		if !ok || used[fmt.Sprint(idx)] {
 			continue
 		}
-		if x, ok := d.dumpField(rv.Field(idx), f, -1, sub(path, f.Name)); ok {
+		if x, ok := d.dumpField(rv.FieldByIndex(idx), f, -1, sub(path, f.Name)); ok {
 			out[f.Name] = x
 		}
 	}
